@@ -266,6 +266,7 @@ def opt_case(spec, pid):
         nondet = set()
         expected = outs if all(o is not None for o in outs) else None
         label = {"corpus": spec["dir"], "lift": spec["lift"]}
+        info = {"events": {}}
         hit("corpus_" + spec["lift"])
     # ---- precondition filter
     err = runner.checker(m, full=(spec["kind"] == "gen"))
@@ -289,6 +290,13 @@ def opt_case(spec, pid):
             hit("corpus_expectation_disagrees_with_ort")
     res["sample"] = label
     opts = optcommon.option_tuples(rng, spec["nopt"])
+    if len(m.functions) and (spec["kind"] == "corpus" or info["events"].get("motif:function_rule_body")):
+        # model-local functions only survive rewrite() and optimize(inline=False): a model whose function bodies match a rule
+        # always gets both (otherwise the rules never see a function body)
+        for extra in (dict(api="rewrite", entry=rng.choice(["proto", "ir"])), dict(api="optimize", entry="proto", inline=False)):
+            if extra not in opts:
+                opts.append(extra)
+        hit("functions_kept_option_tuples")
     known = optcommon.known_mechs(pid)
     _c04_entries = findings.load("C04")
 
